@@ -497,7 +497,7 @@ func check(id, tier string) int {
 			case err = <-done:
 			case <-time.After(budget + 90*time.Second):
 				cmd.Process.Kill()
-				troubles[i] = "watchdog: worker did not finish within its budget (a run never returned: model and real primitive disagree, or an unbounded loop)"
+				troubles[i] = fmt.Sprintf("watchdog: worker for runs [%d,%d) (race=%v) did not finish within its budget (a run never returned: model and real primitive disagree, or an unbounded loop); its output so far: %s %s", j.from, j.to, j.race, tail(o.String(), 500), tail(e.String(), 1500))
 				return
 			}
 			line := lastLine(o.String())
